@@ -45,11 +45,16 @@ def algRunOut (a b : Raw K Unit) : Nat → AlgIt → SM K Unit Q (List (AlgItem 
 
 def algItemRV (x : AlgItem K) : RV K Unit := .oref x.1 x.2.1 (.key x.2.2)
 
+def algRunForks (a b : Raw K Unit) : List AlgIt → SM K Unit Q (List (RV K Unit))
+  | [] => pure []
+  | f :: fs => do
+    let x ← algRunOut E a b (a.len + b.len + 1) f
+    let rest ← algRunForks a b fs
+    pure (RV.list (x.map algItemRV) :: rest)
+
 def algScript (dbg : K → String) (a b : Raw K Unit) :
     List IterCmd → AlgIt → List AlgIt → SM K Unit Q (List (RV K Unit))
-  | [], _, forks => do
-    forks.mapM fun f => do
-      pure (RV.list ((← algRunOut E a b (a.len + b.len + 1) f).map algItemRV))
+  | [], _, forks => algRunForks E a b forks
   | c :: cs, it, forks => do
     match c with
     | .next =>
